@@ -661,8 +661,10 @@ def write_evidence(ctx, queries, level, extra_cov=None, assumptions=None, violat
         "wall_s": round(time.time() - ctx.t0, 1),
         "violations": violations,
     }
-    os.makedirs(os.path.join(VERIF, "evidence"), exist_ok=True)
-    json.dump(ev, open(os.path.join(VERIF, "evidence", ctx.prop + ".json"), "w"), indent=1)
+    # (seedtest.sh redirects the evidence of runs against a deliberately broken tree away from the committed directory)
+    evdir = os.environ.get("VERIF_EVIDENCE_DIR") or os.path.join(VERIF, "evidence")
+    os.makedirs(evdir, exist_ok=True)
+    json.dump(ev, open(os.path.join(evdir, ctx.prop + ".json"), "w"), indent=1)
 
 
 G = "mpn/generic/"
